@@ -49,8 +49,13 @@ def main():
             if src is not None:
                 open(path, "w").write(src)
             env = dict(os.environ, VERIF_REPO=wt)
-            r = subprocess.run([os.path.join(VERIF, "bin/check"), m["check"]], cwd=VERIF, env=env, capture_output=True, text=True)
-            out = r.stdout
+            rs = [subprocess.run([os.path.join(VERIF, "bin/check"), c], cwd=VERIF, env=env, capture_output=True, text=True)
+                  for c in m["check"].split(",")]
+            r = rs[0]
+            for x in rs[1:]:     # several checks: worst exit code, concatenated output
+                if x.returncode != 0:
+                    r = x
+            out = "".join(x.stdout for x in rs)
             expect = m.get("expect")
             if expect is None:   # behaviour-preserving rewrite: must stay silent
                 ok = r.returncode == 0
